@@ -7,10 +7,14 @@ import (
 	"encoding/hex"
 	"encoding/json"
 	"fmt"
+	gogit "github.com/go-git/go-git/v5"
+	"github.com/go-git/go-git/v5/plumbing"
+	"github.com/go-git/go-git/v5/plumbing/object"
 	"os"
 	"path/filepath"
 	"sort"
 	"strings"
+	"time"
 
 	"github.com/MichaelMure/git-bug/entities/bug"
 	"github.com/MichaelMure/git-bug/entities/identity"
@@ -473,6 +477,7 @@ type verSpec struct {
 	raw     []byte
 	entries string // "ok", "missing", "renamed", "extra", "tree"
 	parents []int
+	foreign bool // committed by somebody else: same tree and parents give another commit hash
 }
 
 func validVersion(name string, edit int, parents ...int) *verSpec {
@@ -537,6 +542,13 @@ func mutateIdentity(chain []*verSpec, i int, m string) []*verSpec {
 		v.fields["pub_keys"] = []interface{}{nil}
 	case "keys_number":
 		v.fields["pub_keys"] = []interface{}{7}
+	case "recommitted":
+		for _, x := range chain {
+			x.foreign = true
+		}
+		top := validVersion("mallory", 3, 1)
+		top.foreign = true
+		chain = append(chain, top)
 	case "merge_commit":
 		side := validVersion("side", 1)
 		chain = append(chain, side)
@@ -581,12 +593,38 @@ func writeVersions(repo repository.ClockedRepo, chain []*verSpec, head int) repo
 		}
 		th, err := repo.StoreTree(tree)
 		hx.Must(err)
-		c, err := repo.StoreCommit(th, parents...)
-		hx.Must(err)
+		var c repository.Hash
+		if v.foreign {
+			c = foreignCommit(repo, th, parents)
+		} else {
+			c, err = repo.StoreCommit(th, parents...)
+			hx.Must(err)
+		}
 		done[i] = c
 		return c
 	}
 	return write(head)
+}
+
+// foreignCommit stores a commit with another author and date than StoreCommit would: the same content under another hash
+func foreignCommit(repo repository.ClockedRepo, tree repository.Hash, parents []repository.Hash) repository.Hash {
+	g, ok := repo.(*repository.GoGitRepo)
+	if !ok {
+		hx.Die("foreign commits need a go-git repository")
+	}
+	r, err := gogit.PlainOpenWithOptions(g.GetLocalRemote(), &gogit.PlainOpenOptions{DetectDotGit: true})
+	hx.Must(err)
+	sig := object.Signature{Name: "mallory", Email: "m@example.org", When: time.Unix(1500000000, 0)}
+	cm := object.Commit{Author: sig, Committer: sig, Message: "", TreeHash: plumbing.NewHash(tree.String())}
+	for _, p := range parents {
+		cm.ParentHashes = append(cm.ParentHashes, plumbing.NewHash(p.String()))
+	}
+	obj := r.Storer.NewEncodedObject()
+	obj.SetType(plumbing.CommitObject)
+	hx.Must(cm.Encode(obj))
+	h, err := r.Storer.SetEncodedObject(obj)
+	hx.Must(err)
+	return repository.Hash(h.String())
 }
 
 func identityCase(c Case) Outcome { return identityCaseWith(c, nil) }
@@ -621,7 +659,11 @@ func identityCaseWith(c Case, tweak func(chain []*verSpec)) Outcome {
 	if tweak != nil {
 		tweak(remote)
 	}
-	remoteHead := writeVersions(repo, remote, 1)
+	head := 1
+	if c.M == "recommitted" {
+		head = 2
+	}
+	remoteHead := writeVersions(repo, remote, head)
 	refId := origId
 	if remote[0].raw == nil {
 		refId = sha(remote[0].blob())
